@@ -89,6 +89,30 @@ class _Helper:
         return None
 
 
+def _loop_gen(h: _Helper) -> bool:
+    """Generator helper of the shape `<simple statements>; for v in it: ...; yield x` with exactly one yield, in tail position of the loop."""
+    if not h.body or not isinstance(h.body[-1], ast.For) or h.body[-1].orelse:
+        return False
+    own = list(_walk_own(h.body))
+    ys = [x for x in own if isinstance(x, (ast.Yield, ast.YieldFrom))]
+    if len(ys) != 1 or not isinstance(ys[0], ast.Yield):
+        return False
+    if any(isinstance(x, (ast.For, ast.While, ast.Try, ast.With)) for s in h.body[:-1] for x in ast.walk(s)):
+        return False
+    loop = h.body[-1]
+    if any(isinstance(x, (ast.For, ast.While, ast.Try, ast.With, ast.Break, ast.Continue)) for s in loop.body for x in ast.walk(s)):
+        return False
+
+    def tail(body: list[ast.stmt]) -> bool:
+        last = body[-1]
+        if isinstance(last, ast.Expr) and last.value is ys[0]:
+            return True
+        if isinstance(last, ast.If):
+            return tail(last.body) or (bool(last.orelse) and tail(last.orelse))
+        return False
+    return tail(loop.body)
+
+
 class _Sub(ast.NodeTransformer):
     def __init__(self, mapping: dict[str, ast.AST]) -> None:
         self.mapping = mapping
@@ -206,6 +230,28 @@ class _Inliner(ast.NodeTransformer):
                     if b is not None:
                         self.count += 1
                         return b[0] + _instantiate(h, b[1], st)
+        # E: `for T in helper(...): BODY` where the helper is a generator whose only yield is the last thing its single loop does:
+        # the consumer's body takes the place of the yield
+        if isinstance(st, ast.For) and not st.orelse:
+            h = self._target(st.iter)
+            if h is not None and h.kind == 'gen' and _loop_gen(h):
+                b = _bind(h, st.iter, self.caller_names, tag)
+                if b is not None:
+                    self.count += 1
+                    inst = _instantiate(h, b[1], st)
+                    loop = inst[-1]
+
+                    def place(body: list[ast.stmt]) -> bool:
+                        last = body[-1]
+                        if isinstance(last, ast.Expr) and isinstance(last.value, ast.Yield):
+                            val = last.value.value if last.value.value is not None else ast.Constant(value=None)
+                            body[-1:] = [ast.copy_location(ast.Assign(targets=[st.target], value=val, lineno=st.lineno), st)] + st.body
+                            return True
+                        if isinstance(last, ast.If):
+                            return place(last.body) or (bool(last.orelse) and place(last.orelse))
+                        return False
+                    if place(loop.body):  # type: ignore[attr-defined]
+                        return b[0] + inst
         # B
         val = getattr(st, 'value', None) if isinstance(st, (ast.Assign, ast.AnnAssign, ast.AugAssign, ast.Return)) else None
         h = self._target(val) if val is not None else None
